@@ -918,9 +918,13 @@ func (d *driver) history(ops []string) {
 
 // historyCfg: one history under one QueueSize configuration (0 = ample).
 func (d *driver) historyCfg(ops []string, qs int) {
+	holdCrash := d.b.holdCrash && qs == 0 // small-queue configurations: held answers without the crash product
 	maxDrops := d.b.maxDrops
 	if m, ok := d.b.dropsAtLen[len(ops)]; ok {
 		maxDrops = m
+	}
+	if qs != 0 && maxDrops > 2 {
+		maxDrops = 2 // small-queue configurations: at most two unanswered requests
 	}
 	type pat struct {
 		drops []string
@@ -982,7 +986,7 @@ func (d *driver) historyCfg(ops []string, qs int) {
 				out := d.one(scenario{ops, f})
 				d.cnt.scenarios.Add(1)
 				d.cnt.holds.Add(1)
-				if len(out.Viols) == 0 && d.b.holdCrash {
+				if len(out.Viols) == 0 && holdCrash {
 					d.crashes(ops, faults{Hold: k, ReleaseAt: r, QueueSize: qs}, out)
 				}
 			}
